@@ -93,6 +93,12 @@ def pack_stage(name, universe, rulemode, prop, seed, extra_args=None, **kw):
     return d
 
 
+def pack_rec_stage(tier):
+    # direction B: random trees (names of the specification's name universe, depth <= 4, files / directories / links /
+    # fifos, 8 modes, whole and fractional mtimes, 17 link target shapes) x random options, judged by Judge_Pack
+    return dict(kind="rec", name="randomtrees", recorder="packrec", n=1200 if tier == "quick" else 20000, judge=dict(PACK_JUDGE, timeout=3000))
+
+
 def pack_stages(prop, tier, seed):
     q = tier == "quick"
     if prop == "C03":
@@ -102,12 +108,14 @@ def pack_stages(prop, tier, seed):
             st.append(pack_stage("ign2q", "ignore", "pairq", prop, seed))
         else:
             st.append(pack_stage("ign2", "ignore", "pair", prop, seed, timeout=3000))
+            st.append(pack_rec_stage(tier))
         return st
     if prop == "C02":
         st = [pack_stage("rt", "rt", "none", prop, seed)]
         if not q:
             st.append(pack_stage("safety", "safety", "none", prop, seed, timeout=3000))
             st.append(pack_stage("ign1", "ignore", "single", prop, seed))
+        st.append(pack_rec_stage(tier))
         return st
     if prop in ("C05", "C20", "C19"):
         st = [pack_stage("safety", "safetyq" if q else "safety", "none", prop, seed, timeout=3000)]
@@ -124,6 +132,7 @@ def pack_stages(prop, tier, seed):
         if not q:
             st.append(pack_stage("rt", "rt", "none", prop, seed))
             st.append(pack_stage("ign1", "ignore", "single", prop, seed))
+            st.append(pack_rec_stage(tier))
         return st
     if prop == "C16":
         # the second run is the same universe with the replayer (and its workers) built with the Go race detector:
@@ -207,7 +216,9 @@ def builder_stages(prop, tier, seed):
         return [faults, ufault, wfault]
     regsub = builder_stage("regsub", prop, seed, {"Adds": "<- MCAddsG", "Pkgs": '{"P1"}', "MaxEdges": "1", "MaxAdds": "2"})
     if prop == "C13":
-        return [coal, base, regsub, sched, conc] if not q else [coal, regsub, sched, conc]
+        # all sequences of up to four Add calls (with repeats) over the four-add universe, each against its canonical order
+        perm4 = builder_stage("perm4", prop, seed, {"MaxAdds": "4", "MaxEdges": "0", "Contents": "{1, 2}"})
+        return [coal, base, regsub, sched, conc, perm4] if not q else [coal, regsub, sched, conc]
     if prop == "C09":
         return [coal] if q else [coal, vers, base]
     raise KeyError(prop)
@@ -235,11 +246,17 @@ def prep_stage(name, universe, rulemode, prop, **kw):
     return d
 
 
+def prep_rec_stage(tier):
+    # direction B: random fetched package trees (13 names, depth <= 4, files / directories / links with 22 target shapes /
+    # fifos) through the real builder, judged by Judge_Prepare
+    return dict(kind="rec", name="randompkgs", recorder="preprec", n=800 if tier == "quick" else 20000, judge=dict(PREP_JUDGE, timeout=3000))
+
+
 def prep_stages(prop, tier, seed):
     q = tier == "quick"
     if prop == "C10":
         return [prep_stage("links", "links", "none", prop), prep_stage("rules1", "rules", "single", prop),
-                prep_stage("rules2", "rules", "pairq" if q else "pair", prop)] + [s for s in builder_stages("C13", tier, seed)[:1] if not s.update(vh_args=["-props", "C10"] + s["vh_args"][2:])]
+                prep_stage("rules2", "rules", "pairq" if q else "pair", prop), prep_rec_stage(tier)] + [s for s in builder_stages("C13", tier, seed)[:1] if not s.update(vh_args=["-props", "C10"] + s["vh_args"][2:])]
     return [prep_stage("links", "links", "none", prop), prep_stage("rules1", "rules", "single", prop),
             prep_stage("rules2", "rules", "pairq" if q else "pair", prop)]
 
@@ -416,6 +433,30 @@ def check(vc, prop, tier, seed, t0):
     flag_counts = {}
     try:
         for stage in P["stages"](prop, tier, seed):
+            if stage.get("kind") == "rec":
+                pairs, rstats = vc.run_rec_stage(vh, scratch, stage, seed)
+                same = sum(1 for _, j in pairs if j.get("same"))
+                total += len(pairs)
+                agree += same
+                mismatch += len(pairs) - same
+                nontrivial += len(pairs)
+                exhaustive = False
+                for obs, j in pairs:
+                    v = j["v"]
+                    if v.get(P["key"], True):
+                        continue
+                    kf = v.get(P["kfkey"], "")
+                    l1v = j["l1"]["v"]
+                    if kf and not j.get("same") and (l1v.get(P["key"], True) or not vc.subset(v.get(P["wkey"], []), l1v.get(P["wkey"], []))):
+                        kf = ""
+                    k = prop + "|" + kf
+                    flag_counts[k] = flag_counts.get(k, 0) + 1
+                    flags.append(dict(prop=prop, witness=v.get(P["wkey"], []), kf=kf, case=obs, obs=obs, gamma=obs.get("gamma", 0),
+                                      stage=stage["name"], family=stage["recorder"], predicted=j["l1"],
+                                      reproduced_by="outcome recorded from the real code on a random input; L1 prediction and verdict computed by the TLA+ judge"))
+                stage_info.append(dict(stage=stage["name"], recorder=stage["recorder"], recorded=len(pairs), equal_to_model=same,
+                                       drift=len(pairs) - same, recorder_stats=rstats))
+                continue
             if stage.get("kind") == "design":
                 stats = vc.run_design_stage(scratch, stage)
                 states += stats["distinct"]
